@@ -183,7 +183,17 @@ func dartReachable(an *analysis.Analysis) []analysis.Type {
 func sameNumber(a, b string) bool {
 	ra, ok1 := new(big.Rat).SetString(a)
 	rb, ok2 := new(big.Rat).SetString(b)
-	return ok1 && ok2 && ra.Cmp(rb) == 0
+	if !ok1 || !ok2 {
+		return false
+	}
+	if ra.Cmp(rb) == 0 {
+		return true
+	}
+	// both sides of the wire hold float64 values: a decimal literal and the exact value of the
+	// constant are the same number when they denote the same float64
+	fa, _ := ra.Float64()
+	fb, _ := rb.Float64()
+	return fa == fb && ra.IsInt() == rb.IsInt()
 }
 
 func dartTitle(s string) string {
